@@ -475,12 +475,13 @@ fn check_cmd(a: &[String]) -> i32 {
     }
     // crashes: C01 owns them (C19 owns aborts in allocation-failure runs)
     let mut crash_notes = Vec::new();
+    let mut crash_reports = 0;
     for (run, sig) in &crashed {
         let owns = id == 1 || (id == 19 && *sig == 6) || (id == 20 && *sig == 14);
         if owns && *run != u64::MAX {
             let rs = rng::run_seed(seed, tag, *run);
             let t = plan.generate(rs, *run, thorough);
-            let min = minimise::minimise_crash(&t, plan.mask, &exe, &vd, if *sig == 14 { 40 } else { 200 });
+            let min = minimise::minimise_crash(&t, plan.mask, &exe, &vd, if *sig == 14 { 12 } else { 200 });
             let path = format!("{}/replays/{}-{}.json", vd, pname(id), rs);
             let rj = J::obj()
                 .set("property", J::Str(pname(id)))
@@ -493,7 +494,8 @@ fn check_cmd(a: &[String]) -> i32 {
             violation_lines.push(format!("VIOLATION property={} replay={}", pname(id), path));
             println!("  [{}] run {}: process died with signal {}", pname(id), run, sig);
             reported += 1;
-            if reported >= 6 {
+            crash_reports += 1;
+            if reported >= 6 || crash_reports >= if *sig == 14 { 2 } else { 4 } {
                 break;
             }
         } else {
